@@ -33,7 +33,18 @@ Blame ==
   @@ "dn.recreate" :> {"C07"}
   @@ "exit.loop"  :> {"C03"}
   @@ "exit.how"   :> {"C06"}
-  @@ "oe.actor"   :> {"C15"}
+  @@ "oe.actor.clone" :> {"C15"} @@ "oe.actor.downgrade" :> {"C15"} @@ "oe.actor.upgrade" :> {"C15"}
+  @@ "oe.actor.sender" :> {"C15"} @@ "oe.actor.caller" :> {"C15"} @@ "oe.actor.weak_sender" :> {"C15"}
+  @@ "oe.actor.weak_caller" :> {"C15"} @@ "oe.actor.to_addr" :> {"C15", "C17"} @@ "oe.actor.detach" :> {"C17"}
+  @@ "oe.actor.from_registry" :> {"C08"} @@ "oe.actor.register" :> {"C08"} @@ "oe.actor.replace" :> {"C08"}
+  @@ "oe.actor.unregister" :> {"C08"} @@ "oe.actor.try_from_registry" :> {"C08"} @@ "oe.actor.already_running" :> {"C08"}
+  @@ "oe.res.from_registry" :> {"C08"} @@ "oe.res.setup" :> {"C08"} @@ "oe.res.register" :> {"C08"} @@ "oe.res.replace" :> {"C08"}
+  @@ "oe.res.unregister" :> {"C08"} @@ "oe.res.try_from_registry" :> {"C08", "C14"} @@ "oe.res.already_running" :> {"C08"}
+  @@ "oe.ready.from_registry" :> {"C08"} @@ "oe.ready.setup" :> {"C08"} @@ "oe.ready.register" :> {"C08"}
+  @@ "oe.ready.replace" :> {"C08"} @@ "oe.ready.unregister" :> {"C08"} @@ "oe.ready.already_running" :> {"C08"}
+  @@ "oe.done"    :> {"C08"}
+  @@ "dn.miss"    :> {"C08", "C14"} @@ "dn.type" :> {"C08"} @@ "dn.lock" :> {"C08"}
+  @@ "blk.reglock" :> {"C08"} @@ "blk.regping" :> {"C08"}
   @@ "oe.res.send" :> {"C12", "C02"}
   @@ "oe.ready.send" :> {"C12"}
   @@ "oe.res.call" :> {"C02"}
